@@ -263,6 +263,13 @@ def lcheck (strict : Bool) (k : Kind) (id : Option Nat) (m : LMon) (e : LEntry) 
         else if m.appCleared then (if e.events == [.got (.cleared id)] then none else some "cleared-not-reported")
         else if s == .good then (if e.events == [.got (respOf k id .good)] then none else some "answer-waiting-not-reported")
         else none
+      | .tick, _ =>
+        -- A step that is not about this timer. `clear` wakes nobody, so a timer cleared while pending reports Cleared
+        -- whenever its task is next polled — normally when the shell answers, but the executor may poll it spuriously
+        -- (a stale waker reaching its slot); that is legal, so Cleared may show up here. Nothing else may.
+        if !e.effects.isEmpty then some "output-without-run"
+        else if e.events.isEmpty || (m.appCleared && !m.outcome && e.events == [.got (.cleared id)]) then none
+        else some "output-without-run"
       | _, _ => if e.effects.isEmpty && e.events.isEmpty then none else some "output-without-run"
 
 def LMon.after (m : LMon) (k : Kind) (id : Option Nat) (e : LEntry) : LMon :=
@@ -299,5 +306,50 @@ def lverdict (strict : Bool) (kinds : List Kind) (ids : List (Option Nat)) (step
     match kinds[j]?, ids[j]? with
     | some k, some id => lverdict1 strict k id {} (lproject j (steps.zip outs))
     | _, _ => none
+
+/-! ### both APIs in one app (host `mixed`) -/
+
+/-- Entries of the command-API timer at position `j` of a mixed case; `k`, `id`: its constructor and the id it gets.
+    Before its start action it is a timer nobody runs (anything it shows is rejected by `quietUnlessRan`); its start
+    action creates it in `update` (`startClear`: and clears it there) and returns its command, so from then on it is run
+    at the end of every step. -/
+def mprojectCmd (k : Kind) (id : Nat) (j : Nat) : Bool → List ((MAct × Nat) × List Out) → List Entry
+  | _, [] => []
+  | created, ((a, i), outs) :: rest =>
+    let o := outs.getD j {}
+    if created then
+      { act := if i == j then toAct { kind := k, id := id } a else .tick, ran := true, res := o.res,
+        effects := o.effects, events := o.events } :: mprojectCmd k id j true rest
+    else if i == j && (a == .start || a == .startClear) then
+      { act := if a == .startClear then .clear else .tick, ran := true, res := o.res,
+        effects := o.effects, events := o.events } :: mprojectCmd k id j true rest
+    else
+      { act := .tick, ran := false, res := .unit, effects := o.effects, events := o.events }
+        :: mprojectCmd k id j false rest
+
+/-- entries of the legacy timer at position `j` of a mixed case: the steps addressed to it, and (as `tick`) any other
+    step in which it reported something -/
+def mprojectLeg (j : Nat) (steps : List ((MAct × Nat) × List Out)) : List LEntry :=
+  (steps.filter fun s => s.1.2 == j || !(s.2.getD j {}).events.isEmpty).map fun s =>
+    let o := s.2.getD j {}
+    { act := if s.1.2 == j then toLAct s.1.1 else .tick, res := o.res, effects := o.effects, events := o.events }
+
+/-- a legacy timer sends nothing in steps not addressed to it -/
+def mquietLeg (j : Nat) (steps : List ((MAct × Nat) × List Out)) : Bool :=
+  steps.all fun s => s.1.2 == j || (s.2.getD j {}).effects.isEmpty
+
+/-- The oracle for mixed cases. `kinds[j]` = (legacy?, constructor); `ids[j]` = the id of timer `j` if it ever got one;
+    `idsOk`: all raw ids handed out in the case — by either API — were pairwise distinct (and increasing in creation order). -/
+def mverdict (strict : Bool) (kinds : List (Bool × Kind)) (ids : List (Option Nat)) (steps : List (MAct × Nat))
+    (idsOk : Bool) (outs : List (List Out)) : Option String :=
+  if !idsOk then some "id-not-unique"
+  else if outs.length != steps.length || !(outs.all (·.length == kinds.length)) then some "malformed-observation"
+  else (List.range kinds.length).findSome? fun j =>
+    match kinds[j]? with
+    | none => none
+    | some (true, k) =>
+      if !mquietLeg j (steps.zip outs) then some "output-without-run"
+      else lverdict1 strict k ((ids.getD j none)) {} (mprojectLeg j (steps.zip outs))
+    | some (false, k) => verdict1 k ((ids.getD j none).getD 0) {} (mprojectCmd k ((ids.getD j none).getD 0) j false (steps.zip outs))
 
 end S.Timer
